@@ -204,6 +204,15 @@ static void handler(vh::Reader& r, vh::Out& o)
 		mat_history(r, R);
 		put_vec(o, *R * *v);
 	}
+	else if(op == "rotaxis")
+	{
+		// the axis object itself is the vector that is turned: R axis = axis
+		double alpha = r.num();
+		VecP axis = rd_vec3(r);
+		MatP R(new Matrix(Rotation_Matrix(alpha, 3, *axis)));
+		mat_history(r, R);
+		put_vec(o, *R * *axis);
+	}
 	else if(op == "rotback")
 	{
 		// transpose equals inverse, with the library's own products: (R v) R = R^T (R v) = v
